@@ -145,15 +145,31 @@ LATTICE_OPS = ("leq", "join", "joineq", "meet", "meeteq")
 WIDEN_OPS = ("wid", "widt", "nar")
 
 
+
+def lat3_jobs(ops, doms, tier):
+    """operands over different variable sets: every pair of subsets of 4 variables (sa fixed per job, sb forked by the solver)"""
+    J = []
+    for d in doms:
+        for o in ops:
+            for sw in (0, 1):
+                for sa in range(16):
+                    J.append(Job("lat3", {"op": o, "swap": sw, "sa": sa, "nsym": 1 if tier == "quick" else 2}, defines=("DOM=%d" % d,), budget=300,
+                                 what="%s on %s, operands over different variable sets (left set %d, every right set)" % (o, DOMS[d][0], sa), witnesses=1))
+    return J
+
+
 def c04_jobs(tier, seed):
-    return hist_jobs(tier, seed, [1, 2], ALL_LIGHT, focus=LATTICE_OPS, ngen_quick=40, ngen_thorough=400)
+    J = hist_jobs(tier, seed, [1, 2], ALL_LIGHT, focus=LATTICE_OPS, ngen_quick=40, ngen_thorough=400)
+    J += lat3_jobs(("join", "meet", "leq"), (1, 10) if tier == "quick" else (1, 2, 6, 10, 12, 18), tier)
+    return J
 
 
 PROPS["C04"] = dict(
     jobs=c04_jobs,
     explanation="Inclusion test and lattice operations of the real domains on pairs of values built by operation histories (incl. values over different variable sets): "
                 "a<=a, bottom<=a, a<=top, is_bottom/is_top vs make_*/set_to_*; whenever a<=b answers yes, the concrete state carried with a must be described by b (at(), exported constraints); "
-                "join/|= contains a state of either operand (symbolic choice), meet/&= a common state. " + HIST_EXPL,
+                "join/|= contains a state of either operand (symbolic choice), meet/&= a common state. "
+                "lat3 harness: the same facts for every pair of variable subsets of 4 variables (left operand [0,5] on its set, right operand [1,4] / symbolic bounds on its set), and for interval environments join = point-wise join. " + HIST_EXPL,
     bounds=HIST_BOUNDS, outside=HIST_OUT, assumptions=E2_ASSUME)
 
 
@@ -167,6 +183,8 @@ def c05_jobs(tier, seed):
         for (wd, di) in ((0, 0), (1, 2)) if tier == "quick" else ((0, 0), (1, 1), (2, 2), (1, 2)):
             for d in (1, 2):
                 J.append(fwd_job(d, pr, wd, di, 0, tier))
+    # widening / narrowing of operands over different variable sets; for intervals: environment widening = point-wise interval widening
+    J += lat3_jobs(("wid", "nar"), (1, 10) if tier == "quick" else (1, 2, 6, 10, 12, 18), tier)
     return J
 
 
@@ -182,10 +200,10 @@ def c16_jobs(tier, seed):
             J.append(dom_job(d, s, "c16w", budget=400, tier=tier))
         for s in gen.COW_CORE:
             J.append(dom_job(d, s, "c16q", budget=400, tier=tier))
-    for s in gen.COW_CORE:
-        J.append(dom_job(1, s, "c16q", budget=400, tier=tier))
         for s in core[d % 3::3]:
             J.append(dom_job(d, s, "sound", budget=400, tier=tier))
+    for s in gen.COW_CORE:
+        J.append(dom_job(1, s, "c16q", budget=400, tier=tier))
     # copy-then-mutate histories in sound mode: every observation of the untouched value is unchanged
     cp = [s for s in core if "cpy" in s]
     for d in ([1, 2, 5, 10, 13, 18, 21] if tier == "quick" else [1, 2, 3, 4, 5, 10, 12, 13, 17, 18, 20, 21]):
@@ -257,7 +275,7 @@ PROPS["C01"] = dict(jobs=c01_jobs, explanation=FWD_EXPL, bounds=FWD_BOUNDS, outs
 PROPS["C05"] = dict(
     jobs=c05_jobs,
     explanation="(a) widening/narrowing inside operation histories: result of || (and widening_thresholds with symbolic thresholds) describes a state of either argument; narrowing of a decreasing pair describes the state of its second argument; "
-                "(b) interval widening ranking fact for chains of any length; (c) termination: every path of every analysis run of the program family (symbolic constants) must finish - a diverging value would be a path that never ends and is reported as NO-VERDICT/path-too-long. " + HIST_EXPL,
+                "(b) interval widening ranking fact for chains of any length, lifted to environments: for every pair of variable subsets of 4 variables the widening of two interval environments is the point-wise interval widening of the bindings (lat3 harness); (c) termination: every path of every analysis run of the program family (symbolic constants) must finish - a diverging value would be a path that never ends and is reported as NO-VERDICT/path-too-long. " + HIST_EXPL,
     bounds=HIST_BOUNDS, outside=HIST_OUT + ["ranking argument for zones/octagons (number of finite edges) is not observable through the public API; covered only through bounded chains in histories and analysis runs"],
     assumptions=E2_ASSUME)
 
@@ -819,6 +837,9 @@ RGN_CORE = [
     "init.0,null.0,make.0.0,q.0,asm.nn.0,st.0.0,r2i.0.0,ld.0.0",                       # null, then allocated
     "init.0,make.0.0,stv.0.0,idx.-4.4,geps.0.1.0.0,stv.1.0,ld.0.0,ld.1.0",
     "init.0,init.1,make.0.0,make.1.1,st.0.0,st.1.1,cpy,gepc.1.0.1.0.0,st.0.0,join,ld.0.0",  # p points into R0 or (after the join) into R1's object
+    "init.0,make.0.0,make.1.0,st.0.0,st.1.0,sel.2.0.0.0.1.0,q.2,st.2.0,ld.0.0,ld.1.0",    # select between two references
+    "init.0,make.0.0,st.0.0,seln.1.0.0.0,q.1,asm.nn.1,st.1.0,ld.0.0",                     # select between a reference and null
+    "init.0,make.0.0,st.0.0,seln.0.0.0.0,q.0,asm.nn.0,ld.0.0",
 ]
 RGN_PARAMS = [{}, {"deref": "true"}, {"allocs": "false", "dealloc": "false", "tags": "false"}, {"skipunk": "false", "deref": "true"}]
 RGN_BASE = {1: "interval_domain", 2: "split_dbm_domain (zones)", 3: "flat_boolean_numerical_domain<interval_domain>", 4: "sign_constant_domain"}
@@ -842,7 +863,7 @@ def rgn_histories(rng, n):
             ops = ["make", "make", "idx"]
             live = [p for p in reg if reg[p] is not None and reg[p] != 2]
             if live:
-                ops += ["gepc", "gepc", "st", "st", "stv", "q", "r2i", "free", "cpy", "join", "wid", "asm"]
+                ops += ["gepc", "gepc", "st", "st", "stv", "q", "r2i", "free", "cpy", "join", "wid", "asm", "sel", "seln"]
                 if has_idx:
                     ops += ["geps", "geps", "i2r"]
                 if [p for p in live if reg[p] in stored]:
@@ -872,6 +893,14 @@ def rgn_histories(rng, n):
                 p = rng.choice(live); s.append("%s.%d.%d" % (o, p, reg[p])); stored.add(reg[p])
             elif o == "ld":
                 p = rng.choice([p for p in live if reg[p] in stored]); s.append("ld.%d.%d" % (p, reg[p]))
+            elif o in ("sel", "seln"):
+                p = rng.choice(live); l = rng.randrange(3)
+                if o == "seln":
+                    s.append("seln.%d.%d.%d.%d" % (l, reg[p], p, reg[p])); reg[l] = reg[p]
+                else:
+                    qs = [x for x in live if reg[x] == reg[p]]
+                    q = rng.choice(qs)
+                    s.append("sel.%d.%d.%d.%d.%d.%d" % (l, reg[p], p, reg[p], q, reg[q])); reg[l] = reg[p]
             elif o == "q":
                 s.append("q.%d" % rng.choice(list(reg)))
             elif o == "r2i":
@@ -934,9 +963,9 @@ def c15_jobs(tier, seed):
 
 PROPS["C15"] = dict(
     jobs=c15_jobs,
-    explanation="region_domain<Params> over four base domains is driven by histories of region_init, ref_make, ref_gep (constant and symbolic offsets, within and across regions), ref_store / ref_load of integers and of references, ref_free, ref_assume, ref_to_int / int_to_ref, region_copy, join and widening, next to a concrete memory "
+    explanation="region_domain<Params> over four base domains is driven by histories of region_init, ref_make, ref_gep (constant and symbolic offsets, within and across regions), ref_store / ref_load of integers and of references, ref_free, ref_assume, ref_to_int / int_to_ref, select_ref, region_copy, join and widening, next to a concrete memory "
                 "(per region the list of (address, value) writes; objects are symbolic, pairwise distant, non-null base addresses; a reference is an address plus its allocation site); z3 decides after every load that the value read from a previously written cell is in at(lhs), after every reference load / query that a definite is_null_ref answer is right and that a reported set of allocation sites contains the actual one, "
                 "that ref_to_int covers the address, and that no operation turns a reachable state into bottom - for all stored values, base addresses, offsets and join choices.",
-    bounds={"quick": "3 reference variables, 2 integer regions + 1 region of references, 20 curated + 40 generated histories (<= 12 operations), base domains intervals / zones / flat Boolean x intervals / sign-constant, 4 region_domain_params settings on the curated histories (one setting otherwise), offsets in [-4, 32]", "thorough": "600 generated histories, every base domain and parameter setting"},
-    outside=["reads of never-written cells (the path ends)", "region_cast and unknown-typed regions", "select_ref, Boolean and array regions", "tag queries (get_tags) and the deallocation intrinsics", "objects closer than 64 bytes / offsets beyond 32 (out-of-bounds pointer arithmetic)"],
+    bounds={"quick": "3 reference variables, 2 integer regions + 1 region of references, 23 curated + 40 generated histories (<= 12 operations), base domains intervals / zones / flat Boolean x intervals / sign-constant, 4 region_domain_params settings on the curated histories (one setting otherwise), offsets in [-4, 32]", "thorough": "600 generated histories, every base domain and parameter setting"},
+    outside=["reads of never-written cells (the path ends)", "region_cast and unknown-typed regions", "Boolean and array regions", "tag queries (get_tags) and the deallocation intrinsics", "objects closer than 64 bytes / offsets beyond 32 (out-of-bounds pointer arithmetic)"],
     assumptions=E2_ASSUME + ["concrete memory model: word-level addressing, a store through reference p in region R writes cell (R, address(p)); distinct allocations have distinct non-null addresses"])
